@@ -74,7 +74,7 @@ def run(tier, seed, replay=None):
         rp = json.load(open(replay))
         reqs = [rp['request']] if 'request' in rp else []
     else:
-        kinds = ['flat', 'multi', 'nested', 'nested_big', 'unsized', 'tworoots', 'nestedx', 'payload']
+        kinds = ['flat', 'multi', 'nested', 'nested_big', 'unsized', 'tworoots', 'nestedx', 'payload', 'overlap', 'split', 'unsized2', 'ltbound']
         seen = {}
         for i in range(n):
             k = kinds[i % len(kinds)]
@@ -95,6 +95,28 @@ def run(tier, seed, replay=None):
             mreq.append('gi\t%s\t%s' % (blocks, grouping)); midx.append(i)
     mresp = cm.run_model(mreq, exe_model) if mreq else []
     violations, nontrivial = [], set()
+    # the family search as a function (coq/Search.v) against the grouping the macro reports:
+    # exact equality of families, members, keys (with the stored spelling), rows and unsized sets;
+    # on a rejected invocation the model must find no grouping either
+    sreq, sidx = [], []
+    rej = [i for i, r in enumerate(resp) if r.startswith('(Crash') and 'Unable to form impl group' in r]
+    canon_resp = cm.run_hook(['canon\t' + reqs[i].split('\t', 1)[1] for i in rej], exe_hook) if rej else []
+    for i, cg in zip(rej, canon_resp):
+        if cg.startswith('(Blocks'):
+            t = sx.parse(cg)
+            sreq.append('search\t(Blocks ""%s)' % ''.join(' ' + sx.show(p[2][1]) for p in t[2])); sidx.append((i, None))
+    for i, r in enumerate(resp):
+        if r.startswith('(Blocks'):
+            blocks, grouping, _ = r.split('\t')
+            sreq.append('search\t' + blocks); sidx.append((i, grouping))
+    sresp = cm.run_model(sreq, exe_model) if sreq else []
+    stats['search_compared'] = len(sreq)
+    stats['search_rejections_compared'] = len([1 for _, g in sidx if g is None])
+    for (i, grouping), m in zip(sidx, sresp):
+        want = grouping if grouping is not None else '(NoGrouping "")'
+        if m != want:
+            violations.append(dict(kind='correspondence', request=reqs[i], impl=want[:3000], model=m[:3000],
+                                   oracle='corr:hook/search: the grouping the macro forms and the Coq model of the family search (Search.search) disagree'))
     groupings = {}
     for i, m in zip(midx, mresp):
         blocks, grouping, expansion = resp[i].split('\t')
